@@ -310,7 +310,7 @@ PROPS["C08"] = {
     "models": ["IndexMap / hashbrown::HashMap -> array-backed models (capacity 2 in this crate)", "tracker clock -> harness-chosen second (hook)", "ws_protocol compiled from /repo's files against the hashbrown model (shims/ws-protocol-mount)"],
     "assumptions": ["storage.rs, common.rs, config.rs are compiled in place by harness/kani-ws (aquatic_ws itself cannot be built by Kani)"],
     "harnesses": [
-        H(KW, "c08::c08_announce_n0", _C08A, "N=0", [], cost=600, **_WS),
+        H(KW, "c08::c08_announce_n0", _C08A, "N=0", [], tier="thorough", cost=600, **_WS),
         H(KW, "c08::c08_announce_n1", _C08A, "N=1 (ownership)", [], cost=1000,
           native_tests={"owned by another connection": ("replay-ws", "c08_ownership_other_worker_same_slot")}, **_WS),
         H(KW, "c08::c08_scrape_n1_k1", "scrape: exactly one reply to the sender (pending id kept); requested (within max_scrape_torrents) and stored <=> listed with true counts; nothing else listed", "N=1, 1 hash", [], cost=60, mem_gb=20),
@@ -334,10 +334,10 @@ PROPS["C09"] = {
     "models": PROPS["C08"]["models"],
     "assumptions": PROPS["C08"]["assumptions"],
     "harnesses": [
-        H(KW, "c08::c09_offers_n0_k1", _C09O, "N=0, 1 offer", [], cost=600, **_WS),
+        H(KW, "c08::c09_offers_n0_k1", _C09O, "N=0, 1 offer", [], tier="thorough", cost=600, **_WS),
         H(KW, "c08::c09_offers_n1_k1", _C09O, "N=1, 1 offer", [], cost=1000, **_WS),
         H(KW, "c08::c09_offers_n1_k2", _C09O, "N=1, 2 offers", [], tier="thorough", cost=1200, **_WS),
-        H(KW, "c08::c09_answer_n0", _C09A, "N=0", [], cost=600, **_WS),
+        H(KW, "c08::c09_answer_n0", _C09A, "N=0", [], tier="thorough", cost=600, **_WS),
         H(KW, "c08::c09_answer_n1", _C09A, "N=1", [], cost=1000, **_WS),
     ],
 }
